@@ -269,6 +269,7 @@ func (w *Worker) external(fn *ssa.Function, args []Value) (Value, bool) {
 		switch name {
 		case "(*sync.Pool).Get":
 			p := args[0].(Ptr)
+			w.preemptPoint()
 			if w.cfg.PoolReuse {
 				// precise pool: Put keeps the object, Get hands out the most
 				// recently put one (maximal sharing); what it contains is
@@ -308,6 +309,7 @@ func (w *Worker) external(fn *ssa.Function, args []Value) (Value, bool) {
 			}
 			return v, true
 		case "(*sync.Pool).Put":
+			w.preemptPoint()
 			if w.cfg.PoolReuse {
 				p := args[0].(Ptr)
 				if w.pools == nil {
